@@ -8,7 +8,7 @@
    maps identifier strings to ids).  Import bookkeeping, name-collision renaming and the module/class layout
    are outside this model (they are exercised by the end-to-end oracle in harness/props/c05.py).
    Definitions only (no proofs) so that the model still evaluates when a proof breaks. *)
-From Coq Require Import List NArith ZArith Bool Arith.
+From Coq Require Import List BinNat BinInt Bool Arith.
 Import ListNotations.
 
 (* ------------------------------------------------------------------------------------------------ *)
@@ -1092,10 +1092,17 @@ Definition wf_sig (env : penv) (scope : list N) (c : ctx) (s : sig) : bool :=
   (* a self parameter that the reader will mutate must not be optional *)
   negb (self_mutated c s && match s_params s with p :: _ => p_opt p | [] => false end) &&
   (* _VerifyMutators, on what the reader will see *)
-  verify_mutators scope (norm_sig c s).
+  verify_mutators scope (norm_sig c s) &&
+  (* `-> Never` (printed for nothing) must not be shadowed by a TypeVar of that name *)
+  negb (is_tvar env id_Never).
 
 (* the signature is unchanged by the round trip when: every type is stable, and `self` does not get the
    implicit mutation (or already carries exactly it) *)
+(* signatures without type mutations (explicit `x = T` body lines, or the implicit one for a generic `self`) *)
+Definition simple_sig (c : ctx) (s : sig) : bool :=
+  forallb (fun p => match p_mut p with None => true | Some _ => false end) (s_params s) &&
+  negb (self_mutated c s).
+
 (* a type that is not Any must not become Any (a one-member union of Any): VisitParameter would then
    leave the annotation out on the second printing *)
 Definition any_ok (c : ctx) (t : ty) : bool := is_any t || negb (is_any (norm (ctx_param c) t)).
@@ -1111,3 +1118,61 @@ Definition stable_sig (c : ctx) (s : sig) : bool :=
   | None => true end &&
   stable (ctx_plain c) (s_ret s) &&
   negb (self_mutated c s).
+
+(* ------------------------------------------------------------------------------------------------ *)
+(* structural equality of signatures (pytd.Signature.__eq__, with the set equality of unions inside) *)
+
+Definition opt_eq {A} (f : A -> A -> bool) (a b : option A) : bool :=
+  match a, b with Some x, Some y => f x y | None, None => true | _, _ => false end.
+Definition param_eq (p q : param) : bool :=
+  (p_name p =? p_name q)%N && ty_eq (p_ty p) (p_ty q) && pkind_eqb (p_kind p) (p_kind q) &&
+  Bool.eqb (p_opt p) (p_opt q) && opt_eq ty_eq (p_mut p) (p_mut q).
+Definition star_eq (a b : N * ty) : bool := (fst a =? fst b)%N && ty_eq (snd a) (snd b).
+Definition sig_eq (a b : sig) : bool :=
+  list_eqb param_eq (s_params a) (s_params b) && opt_eq star_eq (s_star a) (s_star b) &&
+  opt_eq star_eq (s_sstar a) (s_sstar b) && ty_eq (s_ret a) (s_ret b).
+
+Definition unqual_param (p : param) : param :=
+  mkParam (p_name p) (unqual (p_ty p)) (p_kind p) (p_opt p)
+          (match p_mut p with Some m => Some (unqual m) | None => None end).
+Definition unqual_sig (s : sig) : sig :=
+  mkSig (map unqual_param (s_params s))
+        (match s_star s with Some st => Some (fst st, unqual (snd st)) | None => None end)
+        (match s_sstar s with Some st => Some (fst st, unqual (snd st)) | None => None end)
+        (unqual (s_ret s)).
+
+(* conditions for the re-read signature to be structurally equal to the printed one: every type is
+   eq_stable; an annotation is left out only when it is Any (a typed self/cls is re-read as Any); the return
+   type is not `nothing` (re-read as typing.Never); *args / **kwargs have the shapes tuple, tuple[T], dict,
+   dict[str, T] with T not Any. *)
+Definition shown (c : ctx) (nm : N) (t : ty) : bool :=
+  is_any t || negb (elided c nm t (print_ty (ctx_param c) t)).
+Definition star_shape_t (c : ctx) (st : N * ty) : bool :=
+  match snd st with
+  | Named n => name_eqb (NP id_tuple) (norm_name n)
+  | Generic b [e] =>
+      name_eqb (NP id_tuple) (norm_name b) &&
+      negb (elided c (fst st) e (print_ty (ctx_param c) e)) && eq_stable (ctx_param c) e
+  | _ => false
+  end.
+Definition star_shape_d (c : ctx) (st : N * ty) : bool :=
+  match snd st with
+  | Named n => name_eqb (NP id_dict) (norm_name n)
+  | Generic b [k; e] =>
+      name_eqb (NP id_dict) (norm_name b) && ty_eq (Named (NP id_str)) (unqual k) &&
+      negb (elided c (fst st) e (print_ty (ctx_param c) e)) && eq_stable (ctx_param c) e
+  | _ => false
+  end.
+Definition eq_stable_sig (c : ctx) (s : sig) : bool :=
+  forallb (fun p => eq_stable (ctx_param c) (p_ty p) && shown c (p_name p) (p_ty p)) (s_params s) &&
+  match s_star s with Some st => star_shape_t c st | None => true end &&
+  match s_sstar s with Some st => star_shape_d c st | None => true end &&
+  eq_stable (ctx_plain c) (s_ret s) && negb (tokens_eqb (print_ty (ctx_plain c) (s_ret s)) [TName id_nothing]).
+
+(* VerifyVisitor on a signature: the type clauses on every declared type (EnterParameter's name check and
+   EnterSignature's has_optional check are about identifier spelling / field types, which are not modelled) *)
+Definition verify_sig (s : sig) : bool :=
+  forallb (fun p => verify_ty (p_ty p) && match p_mut p with Some m => verify_ty m | None => true end) (s_params s) &&
+  match s_star s with Some st => verify_ty (snd st) | None => true end &&
+  match s_sstar s with Some st => verify_ty (snd st) | None => true end &&
+  verify_ty (s_ret s).
